@@ -801,8 +801,10 @@ static inline long cmb_random_dice(const long a, const long b)
 {
     cmb_assert (a < b);
 
+    /* Offset in [0, b - a], added in integer arithmetic: a floating point
+     * sum a + x can round up to b + 1 when |a| is large compared to b - a */
     const double x = (double)(b - a + 1) * cmb_random();
-    return (long)(floor((double)a + x));
+    return a + (long)floor(x);
 }
 
 /**
